@@ -216,6 +216,11 @@ fn vertical_order(a: &ISeg, b: &ISeg) -> Option<bool> {
 }
 
 fn segord_pair_body<F: Float>(n: u8, operands: u8) {
+    segord_body::<F>(n, operands, true)
+}
+/// both_orders = false: one call per ordered pair (a, b), compared with the reference only; the
+/// reference is antisymmetric by construction and the harness covers both (a, b) and (b, a)
+fn segord_body<F: Float>(n: u8, operands: u8, both_orders: bool) {
     let a = ISeg::any(n);
     let b = ISeg::any(n);
     // operands: 0 any, 1 same operand, 2 different operands (split of the domain into two queries)
@@ -231,10 +236,13 @@ fn segord_pair_body<F: Float>(n: u8, operands: u8) {
     let sa: Seg<F> = a.build(1);
     let sb: Seg<F> = b.build(2);
     let ab = compare_segments(&sa.l, &sb.l);
-    let ba = compare_segments(&sb.l, &sa.l);
-    assert!(ab != Ordering::Equal && ba != Ordering::Equal, "distinct segments never compare Equal");
+    assert!(ab != Ordering::Equal, "distinct segments never compare Equal");
     assert!(compare_segments(&sa.l, &sa.l) == Ordering::Equal, "a segment equals itself");
-    assert!(ab == ba.reverse(), "segment order is antisymmetric");
+    if both_orders {
+        let ba = compare_segments(&sb.l, &sa.l);
+        assert!(ba != Ordering::Equal, "distinct segments never compare Equal");
+        assert!(ab == ba.reverse(), "segment order is antisymmetric");
+    }
     if !proper_cross(&a, &b) {
         if let Some(a_below) = vertical_order(&a, &b) {
             assert!(
@@ -268,6 +276,12 @@ macro_rules! segord_pair {
             segord_pair_body::<$f>($n, $ops)
         }
     };
+}
+#[kani::proof]
+#[kani::unwind(3)]
+#[kani::stub(robust::orient2d, super::common::orient2d_stub)]
+fn segord_oracle_f32_n3() {
+    segord_body::<f32>(3, 0, false)
 }
 segord_pair!(segord_pair_f32_n3_same, f32, 3, 1);
 segord_pair!(segord_pair_f32_n3_diff, f32, 3, 2);
